@@ -83,12 +83,12 @@ func stackExplorer(depth int) *tt.Explorer {
 		ZeroProj: queueProj{Has: make([]bool, hasN)},
 		Ops: func(path []tt.Op) []tt.Op {
 			if len(path) == 0 {
-				return []tt.Op{op("news"), op("newl", 1), op("newl", 2)}
+				return []tt.Op{op("news"), op("newl", 1), op("newl", 0)}
 			}
 			if len(path) > depth {
 				return nil
 			}
-			return []tt.Op{op("push", 1), op("push", 2), op("push", 3), op("pop")}
+			return []tt.Op{op("push", 1), op("push", 2), op("push", 0), op("pop")}
 		},
 		Term:       func(path []tt.Op) []tt.Op { return []tt.Op{op("drain")} },
 		SplitDepth: 3,
@@ -122,7 +122,7 @@ func stackLinear(cfg Config, file string, runs, steps int) (int, error) {
 			}
 			x := rng.Intn(100)
 			if (phase == 0 && x < 70) || (phase == 1 && x < 30) {
-				return op("push", 1+rng.Intn(50)), true
+				return op("push", rng.Intn(50)), true
 			}
 			return op("pop"), true
 		})
